@@ -272,9 +272,10 @@ class ConcretePolicy(FreePolicy):
     def eig(self, A, B=None, hermitian=False, k=None):
         import scipy.linalg as sl
         if hermitian:
-            w, v = sl.eigh(A.tofloat(), b=None if B is None else B.tofloat())
-            if k is not None:
-                w, v = w[-k:], v[:, -k:]          # subset_by_index = the k largest
+            n_ = A.shape[0]
+            # the same LAPACK call as the code under test (driver and subset decide the signs of the eigenvectors)
+            w, v = sl.eigh(A.tofloat(), b=None if B is None else B.tofloat(), check_finite=False,
+                           **({} if k is None else {'subset_by_index': (n_ - k, n_ - 1)}))
         else:
             w, v = sl.eig(A.tofloat(), b=None if B is None else B.tofloat())
         return asobj(w), asobj(v)
